@@ -72,24 +72,25 @@ void Statement::unparse_list(Context& ctx, const std::vector<Expression*>& list,
   std::vector<std::string> texts;
   for (const Expression * exp : list)
     texts.push_back(exp->unparse(ctx));
-  for (size_t i = 0; i < texts.size(); ++i)
+  /* from the last to the first: enclosing an expression makes it start with
+   * a parenthesis, which matters for the one before it */
+  for (size_t i = texts.size(); i-- > 0;)
   {
     const std::string& t = texts[i];
-    bool enclose = false;
     if (i + 1 < texts.size() && !texts[i + 1].empty() && texts[i + 1].front() == '(' && !t.empty())
     {
       /* does it end with a name ? */
       size_t b = t.size();
       while (b > 0 && (::isalnum((unsigned char)t[b - 1]) || t[b - 1] == '_' || t[b - 1] == '$'))
         --b;
-      enclose = (b < t.size() && !::isdigit((unsigned char)t[b]));
+      if (b < t.size() && !::isdigit((unsigned char)t[b]))
+        texts[i] = "(" + t + ")";
     }
+  }
+  for (const std::string& t : texts)
+  {
     fputc(' ', out);
-    if (enclose)
-      fputc('(', out);
     fputs(t.c_str(), out);
-    if (enclose)
-      fputc(')', out);
   }
 }
 
